@@ -84,7 +84,10 @@ func runCaseA(run *hx.Run, model *hx.Model, u *universe, name string, script []s
 			}
 			s.side(w[1]).faults[w[2]+"#"+w[3]] = codes.Code(atoi(w[4]))
 			lines, impl = append(lines, line), append(impl, "ok")
-		case "get", "getc", "put", "fm", "caps":
+		case "get", "getc", "put", "cput", "fm", "caps":
+			if w[0] == "cput" && (len(w) != 4 || strings.Trim(w[3], "AB") != "") {
+				continue
+			}
 			if (w[0] == "put" && len(w) != 3) || ((w[0] == "get" || w[0] == "getc") && len(w) != 2) || (w[0] == "fm" && len(w) < 2) {
 				continue
 			}
@@ -97,6 +100,18 @@ func runCaseA(run *hx.Run, model *hx.Model, u *universe, name string, script []s
 				out.counts[c.side+" "+c.meth]++
 				if c.fault != codes.OK {
 					out.fired++
+				}
+			}
+			if w[0] == "cput" {
+				// for the oracle and the model this is an upload during which the
+				// Puts that waited for the cancellation failed with its code
+				for _, h := range res.hung {
+					lines, impl = append(lines, fmt.Sprintf("fault %s put %s 1", strings.Fields(h)[0], strings.Fields(h)[1])), append(impl, "ok")
+				}
+				w = []string{"put", w[1], w[2]}
+				line = strings.Join(w, " ")
+				if report {
+					run.Count("op:put-cancelled")
 				}
 			}
 			if what, detail := s.oracle(w, res, roundsBefore); what != "" {
@@ -202,6 +217,8 @@ func genBaseA(r *hx.Rand) []string {
 			script = append(script, fmt.Sprintf("get %d", r.Intn(nkeys+1)))
 		case x < 45:
 			script = append(script, fmt.Sprintf("getc %d", r.Intn(nkeys+1)))
+		case x < 50:
+			script = append(script, fmt.Sprintf("cput %d 0 %s", r.Intn(nkeys+1), []string{"A", "B", "B", "AB"}[r.Intn(4)]))
 		case x < 60:
 			pv := 0
 			if late == 0 && stream == 0 {
